@@ -248,6 +248,7 @@ def run_seq(kind, part, tier):
     info = dict(option_combinations=0)
     cfgs = [('forward', 1, 2), ('central', 2, 4), ('complex', 3, 4), ('multicomplex', 2, 2), ('backward', 4, 1), ('central2', 2, 2)]
     grid = option_grid(kind, tier)
+    NATIVE = []
     with installed(sg, lm) as proxy:
         real_default_scale = sg.default_scale
         for gi, opt in enumerate(grid):
@@ -290,6 +291,26 @@ def run_seq(kind, part, tier):
                     solve.record(tag + 'runs', 'unknown', 'NeedsConcrete', 0.0, None, 'vc', reason=str(e)[:200])
                     continue
                 info['option_combinations'] += 1
+                # engine cross-check: the symbolic run evaluated at a concrete point == the real generator run natively there
+                if gi % 3 == 0:
+                    vals = dict(base_step=Fraction(1, 8), step_ratio=Fraction(5, 2), step_nom=Fraction(3, 2), offset=Fraction(1), dtheta=Fraction(2, 5),
+                                scale=Fraction(2), num_extrap=Fraction(2))
+                    asg = {'x': Fraction(7, 10), 'x0': Fraction(3, 10), 'x1': Fraction(20)}
+                    o_nat = {}
+                    for k_, v_ in o.items():
+                        if isinstance(v_, R):
+                            asg['opt_' + k_] = vals.get(k_, Fraction(3, 2)); o_nat[k_] = float(asg['opt_' + k_])
+                        else:
+                            o_nat[k_] = v_
+                    x_nat = 0.7 if xkind == 'scalar' else np.array([0.3, 20.0])
+
+                    def native(o_nat=o_nat, x_nat=x_nat, method=method, n=n, order=order):
+                        gen = cls(**o_nat)
+                        if kind == 'C':
+                            return list(gen(x_nat)), gen.step_ratio
+                        g = gen.step_generator_function(x_nat, method, n, order)
+                        return list(g()), g.step_ratio
+                    NATIVE.append((tag, paths, asg, native))
                 full = [p for p in paths if p.exc is None and len(p.value[0]) == len(spec)]
                 solve.fact(tag + 'no-exception', all(p.exc is None for p in paths), note=str([repr(p.exc) for p in paths if p.exc][:1]))
                 solve.fact(tag + 'a-path-yields-all-%d-steps' % len(spec), len(full) >= 1)
@@ -314,6 +335,9 @@ def run_seq(kind, part, tier):
                         solve.prove(tag + 'path%d:fewer-steps-only-when-some-step-is-zero' % pi,
                                     z3.Or(*[z3.Or(*[z3.And(*[t == 0 for t in parts(lift(e))]) for e in asobj(sk).ravel()]) for sk in spec]),
                                     p.hyps)
+    from ndvc import xcheck
+    for tag, paths, asg, native in NATIVE:
+        xcheck.check(tag + 'engine==CPython', paths, asg, native, rtol=5e-3)     # make_exact ((h+1)-1) is the identity only in exact arithmetic
     return info
 
 
